@@ -22,11 +22,13 @@ LEVEL_TEXT = ('Tie: the coefficient formula / guard / term count / exponents of 
               'mean (1/pi) int int Z_j Z_j\' rho drho dtheta — and, by the polar change of variables, the area mean over the unit disk — is 1 if j = j\' else 0 for all pairs among the first 231 modes; the default '
               'origin is the mask centroid (first moments vanish) for any parity/position; rho = 1 at a farthest masked sample and '
               '<= 1 on the mask; values vanish outside the mask (field arithmetic) and depend on the mask only through its support. '
-              'PARTIAL: |Z| <= 1 without normalisation is not proved; orthonormality is for n <= 20 in the quick tier (n <= 40 in the thorough tier).')
+              '|R_n^m| <= 1 on [-1,1] and hence |Z_j| <= 1 on the unit disk without normalisation for n <= 20 (j <= 231): 2^n R_n^m = sum_t W_t T_t with Chebyshev T_t(cos x) = cos tx and '
+              'integer weights W_t >= 0 summing to 2^n, weights and coefficient identity decided exactly by the kernel, the inequality proved. '
+              'PARTIAL: the bound and orthonormality are for n <= 20 in the quick tier (n <= 40, all 861 modes, in the thorough tier), not for all n.')
 LEVEL_NOTE = ('Trusted: Lean kernel, float sqrt/cos/sin/atan2 (model run at Float, tolerance 1e-9 x coefficient scale), NumPy semantics of '
               'np.angle/np.abs/np.max as modelled, generator coverage. Known finding KF-C11-nan-outside-mask: the code multiplies by the mask, so '
-              'non-finite coordinates outside the mask (or a one-sample mask) give NaN instead of 0. Unproven clauses: |Z| <= 1 unnormalised '
-              '(sampled by the oracle); orthonormality for 20 < n <= 40 only in the thorough tier; the float sqrt/ceil row search of zernike_index beyond the sampled range of j.')
+              'non-finite coordinates outside the mask (or a one-sample mask) give NaN instead of 0. Unproven clauses: |Z| <= 1 unnormalised and orthonormality for 20 < n <= 40 only in the thorough tier, for n > 40 not at all '
+              '(sampled by the oracle); the float sqrt/ceil row search of zernike_index beyond the sampled range of j.')
 TECHNIQUE = 'Lean 4 proof (omega/induction, Mathlib integrals, decide +kernel exact tables) over translator-regenerated formulas + hand model with differential correspondence'
 GEN = ['ZernikeR', 'Mesh']
 OPS = ['C11']
@@ -38,7 +40,7 @@ RULE = ('cases: every Noll index 1..861 (all 41 rows n <= 40) against zernike_in
         'refusals (index < 1, rho without theta); '
         'distinct = canonical (kind, parameters) signature; non-trivial = n >= 2 / mask not symmetric about the array centre')
 TRUSTED = ['libm sqrt/cos/sin/atan2 agree with NumPy to 1e-9', 'np.angle = atan2(imag, real), np.abs = hypot, np.max over r*mask as modelled in Model/Zernike.lean']
-UNPROVEN = ['|Z_j| <= 1 on the unit disk without normalisation: reduced by raw_mode_le_radial to |R_n^m| <= 1 on [0,1], which is not proved; sampled by the oracle on dyadic nodes and by quadrature',
+UNPROVEN = ['|Z_j| <= 1 on the unit disk without normalisation for n > 40: proved for n <= 20 (raw_mode_abs_le_one, exact Chebyshev certificate) and n <= 40 (raw_mode_abs_le_one_40, thorough tier) — a table, not a proof for all n',
             'orthonormality for 20 < n <= 40 is proved (zernike_orthonormal_40) but built and audited only by the THOROUGH tier (the exact integer '
             'Gram table takes ~5 min); the quick tier carries n <= 20']
 ASSUMPTIONS = ['caller-supplied rho/theta are ndarrays (lists raise AttributeError in R for j > 1: input validation, not judged)',
@@ -103,7 +105,8 @@ def generate(rng, tier):
     if tier == 'thorough':
         # the 5-minute exact Gram table for n <= 40 and the orthonormality theorems for all 861 modes: built and audited here only
         out.append({'kind': 'lean_thorough', 'module': 'LentilVerif.Props.C11Thorough',
-                    'theorems': ['Lentil.C11.gramUpTo_40', 'Lentil.C11.zernike_orthonormal_40', 'Lentil.C11.zernike_orthonormal_area_40']})
+                    'theorems': ['Lentil.C11.gramUpTo_40', 'Lentil.C11.zernike_orthonormal_40', 'Lentil.C11.zernike_orthonormal_area_40',
+                                 'Lentil.C11.radial_abs_le_one_40', 'Lentil.C11.raw_mode_abs_le_one_40']})
     if True:
         # extremes (every tier, 13 calls): indices near 2^31, 2^32 and 10^10 (float row search), row boundaries n(n+1)/2 and n(n+1)/2 + 1
         big = [2 ** 31 - 1, 2 ** 31, 2 ** 32 + 1, 10 ** 9, 10 ** 10 + 7]
